@@ -15,11 +15,11 @@ import (
 func init() {
 	register(&propDef{
 		ID: "C02",
-		Explain: "Decided: (R1) in the copy traversal closure every path to a push effect either has no successors or has dispatched them and then " +
-			"waited, per successor, on the tracker's done channel in a select whose only alternative is ctx.Done() returning an error; " +
-			"(R2) a tracker channel is closed only in a deferred closure under err==nil of the enclosing named result; (R3) every error of a source read, " +
-			"destination existence check/write, callback or internal copy helper in copy.go/extendedcopy.go is propagated (tolerated idioms enumerated), " +
-			"syncutil.Go forwards the first error and returns context.Cause; (R4) no permit is held across the blocking dispatch/wait and the goroutine body " +
+		Explain: "Decided: (R1) in the copy traversal function (closure, method or plain function; role: claims the node with Tracker.TryCommit and dispatches with syncutil.Go, possibly through helpers) every feasible path to a push effect either has no successors or has dispatched them and then " +
+			"waited, per successor, on the tracker's done channel in a select whose only alternative is ctx.Done() returning an error — inline, or in in-module helpers summarised as 'a nil-error return implies every element was waited for'; " +
+			"(R2) a tracker channel is closed only in a deferred closure under err==nil of the enclosing error result, or explicitly where only `return nil` can follow; (R3) every error of a source read, " +
+			"destination existence check/write, callback or internal copy helper in copy.go/extendedcopy.go (and what the entry points statically reach) is propagated — directly, or through a helper that maps nil/tolerated to nil and anything else to non-nil; tolerated sentinels attach to the callback identity; " +
+			"syncutil.Go forwards the first error and returns context.Cause; (R4) no permit is held across the blocking dispatch/wait (typestate followed through helpers that receive the region) and the goroutine body " +
 			"always releases its permit. NOT decided (not applicable to static analysis): wall-clock boundedness, goroutine counts, that a re-run completes, faults inside user stores.",
 		Run:     runC02,
 		Mutants: c02Mutants,
